@@ -237,7 +237,7 @@ func C12(c *wk.Ctx) {
 			if r.Intn(3) == 0 {
 				cs.API, cs.Catalogue = "render", -1
 			}
-			cs.Shape = []string{"", "", "flush-nil", "flush-err", "stringwriter"}[r.Intn(5)]
+			cs.Shape = []string{"", "", "flush-nil", "flush-err", "stringwriter", "bufferlike"}[r.Intn(6)]
 			u.Counters["api_"+map[string]string{"": "execute", "render": "render"}[cs.API]]++
 			u.Counters["writer_shape_"+map[string]string{"": "plain"}[cs.Shape]+cs.Shape]++
 			if r.Intn(4) == 0 {
